@@ -84,7 +84,7 @@ def distinctNames (us : List Url) (r : Ref) : List String :=
 /-- statistics: endpoints with a listing, models per endpoint, distinct model names -/
 def statsOk (us : List Url) (r : Ref) (v : View) : Bool :=
   v.stats.totalEndpoints == (us.filter (fun e => (r e).isSome)).length &&
-  us.all (fun e => get v.stats.perEndpoint e == (r e).map List.length) &&
+  us.all (fun e => mget v.stats.perEndpoint e == (r e).map List.length) &&
   v.stats.totalModels == (distinctNames us r).length
 
 def baseOk (us : List Url) (ns : List String) (r : Ref) (v : View) : Bool :=
@@ -97,27 +97,47 @@ def baseOk (us : List Url) (ns : List String) (r : Ref) (v : View) : Bool :=
 def catalogueSound (r : Ref) (cat : List UModel) : Bool :=
   cat.all (fun u => u.sources.all (fun s => (listed r s.url).any (·.name == s.native)))
 
+/-- `u` attributes the name `n` to endpoint `e` -/
+def attributes (u : UModel) (e : Url) (n : String) : Bool :=
+  u.sources.any (fun s => s.url == e) &&
+    (u.id == n || u.aliases.contains n || u.sources.any (fun s => s.url == e && s.native == n))
+
 /-- Every listed model is in the catalogue, attributed to its endpoint: some entry has the endpoint as a
-    source and carries the name as id, alias or that source's native name. -/
+    source and carries the name as id, alias or that source's native name — or does so for another name the
+    same endpoint lists with the same digest (one binary under two names is one catalogue entry). -/
 def catalogueComplete (us : List Url) (r : Ref) (cat : List UModel) : Bool :=
   us.all (fun e => (listed r e).all (fun m =>
-    cat.any (fun u => u.sources.any (fun s => s.url == e) &&
-      (u.id == m.name || u.aliases.contains m.name || u.sources.any (fun s => s.url == e && s.native == m.name)))))
+    cat.any (fun u => attributes u e m.name ||
+      (m.digest != "" && (listed r e).any (fun m' => m'.digest == m.digest && attributes u e m'.name)))))
 
 /-- endpoints that literally list name `n` -/
 def listersExact (us : List Url) (r : Ref) (n : String) : List Url :=
   us.filter (fun e => (listed r e).any (·.name == n))
 
-/-- endpoints that list a model which unification may identify with `n`: same name ignoring case, or the
-    same digest as such a model anywhere -/
-def listersRelated (us : List Url) (r : Ref) (n : String) : List Url :=
-  let all := us.flatMap (listed r)
-  let ds := (all.filter (fun m => m.name.toLower == n.toLower && m.digest != "")).map (·.digest)
-  us.filter (fun e => (listed r e).any (fun m => m.name.toLower == n.toLower || (m.digest != "" && ds.contains m.digest)))
+/-- names (lower-cased) and digests that unification may identify with a name: closed under "a model of
+    that name carried this digest" / "a model with this digest carried that name", over every listing
+    accepted so far (`seen`: aliases are knowledge about a binary, they outlive the listing they came from) -/
+def relClosure (seen : List Model) : Nat → List String → List String → List String × List String
+  | 0, ns, ds => (ns, ds)
+  | k + 1, ns, ds =>
+    let ds' := ds ++ dedup ((seen.filter (fun m => m.digest != "" && ns.contains m.name.toLower && !ds.contains m.digest)).map (·.digest))
+    let ns' := ns ++ dedup ((seen.filter (fun m => m.digest != "" && ds'.contains m.digest && !ns.contains m.name.toLower)).map (·.name.toLower))
+    relClosure seen k ns' ds'
+
+/-- endpoints that list a model which unification may identify with `n` -/
+def listersRelated (us : List Url) (r : Ref) (seen : List Model) (n : String) : List Url :=
+  let (ns, ds) := relClosure seen (seen.length + 1) [n.toLower] []
+  us.filter (fun e => (listed r e).any (fun m => ns.contains m.name.toLower || (m.digest != "" && ds.contains m.digest)))
 
 /-- the unified lookup of a name is bracketed by the exact and the related listers -/
-def unifiedLookupOk (us : List Url) (r : Ref) (n : String) (found : List Url) : Bool :=
-  (listersExact us r n).all (found.contains ·) && found.all ((listersRelated us r n).contains ·)
+def unifiedLookupOk (us : List Url) (r : Ref) (seen : List Model) (n : String) (found : List Url) : Bool :=
+  (listersExact us r n).all (found.contains ·) && found.all ((listersRelated us r seen n).contains ·)
+
+/-- models of the accepted listings of a history -/
+def Op.models : Op → List Model
+  | .reg _ ms => ms.filterMap id
+  | .reg1 _ m => [m]
+  | _ => []
 
 /-! ### Filters -/
 
@@ -125,6 +145,23 @@ def unifiedLookupOk (us : List Url) (r : Ref) (n : String) (found : List Url) : 
     (cached) filter equals the cache-free evaluation. -/
 def filterOk (cfg : Glob.Config) (name : Glob.Str) (answer : Bool) : Bool :=
   answer == Glob.pureMatches cfg name
+
+/-- What a VALID pattern means (documented glob semantics, case-insensitive): `*` everything, `*t*` contains,
+    `*t` ends with, `t*` starts with, no star: equal. Defined by taking the pattern apart, independently of
+    the branch structure of `MatchesGlob`. -/
+def globMeaning (s pat : Glob.Str) : Bool :=
+  let s := Glob.lower s
+  let p := Glob.lower pat
+  match p with
+  | ['*'] => true
+  | '*' :: rest =>
+    (match rest.reverse with
+     | '*' :: mid => Glob.containsSub s mid.reverse      -- *t*
+     | _ => rest.isSuffixOf s)                           -- *t
+  | _ =>
+    (match p.reverse with
+     | '*' :: init => init.reverse.isPrefixOf s          -- t*
+     | _ => s == p)                                      -- t
 
 /-- "passes that endpoint's (valid) include/exclude filter" -/
 def passes (cfg : Option Glob.Config) (m : Model) : Bool :=
